@@ -36,3 +36,17 @@ package conduiterr
 //verif:func (Code).GRPCCode(c) (r)
 //verif:ensures r == c.grpcCode
 //verif:pure
+
+// ---- C20: what goes on the wire (gRPC status) -----------------------------------------
+// The status carries the code's gRPC category, and every free-text field is put into the
+// ErrorInfo detail as its FULL sanitised form (valid UTF-8, nothing cut): a value cut at a
+// byte limit can split a rune, the detail then fails to marshal and ToStatus falls back
+// to the bare status - the reason, i.e. the code, would be lost on the round trip.
+//verif:func valid(s) (r)
+//verif:pure
+//verif:ensures[sanitised-not-shortened] r == utf8_valid(s)
+
+//verif:func ToStatus(e) (st)
+//verif:call[status-has-the-category-of-the-code] status.New requires arg0 == result_of("(Code).GRPCCode", 0) && arg1 == utf8_valid(e.Message)
+//verif:call[detail-carries-the-full-sanitised-fields] (*Status).WithDetails requires (e.ConfigPath != "" ==> has(md, mdConfigPath) && md[mdConfigPath] == utf8_valid(e.ConfigPath)) && (e.Suggestion != "" ==> has(md, mdSuggestion) && md[mdSuggestion] == utf8_valid(e.Suggestion)) && (e.DocsURL != "" ==> has(md, mdDocsURL) && md[mdDocsURL] == utf8_valid(e.DocsURL)) && info.Reason == utf8_valid(result_of("(Code).Reason", 0)) && info.Domain == errorDomain && info.Metadata == md
+//verif:ensures[detail-attached-unless-marshal-fails] succeeded("(*Status).WithDetails") ==> st == result_of("(*Status).WithDetails", 0)
